@@ -82,9 +82,10 @@ func jobC09(c *rt.Ctx) {
 						c.Violation(fmt.Sprintf("C09 e2e %s refused torsion-order=%d", name, ref.Torsion(ti).Order()),
 							fmt.Sprintf("default-mode verification refused a triple whose %s is [k]B+T_%d (k != 0 mod L)", name, ti), d)
 					}
-					shapes := []batchShape{{0, 4}, {3, 4}}
-					if c.Thorough() {
-						shapes = append(shapes, batchShape{63, 65}, batchShape{64, 65}, batchShape{64, 130})
+					// positions in the first chunk, at its end, in a second and third batched chunk, in the remainder
+					shapes := []batchShape{{0, 4}, {3, 4}, {66, 68}}
+					if c.Thorough() || ti%4 == 1 {
+						shapes = append(shapes, batchShape{63, 65}, batchShape{64, 65}, batchShape{64, 130}, batchShape{131, 133}, batchShape{128, 129})
 					}
 					for _, sh := range shapes {
 						_, valid, err, bpv := implBatch(batchWith(t, sh.pos, sh.n, vs), vs, false, rt.NewRng(c.Seed, "c09"))
@@ -148,7 +149,7 @@ func jobC09(c *rt.Ctx) {
 					c.Violation(fmt.Sprintf("C09 e2e %s default=%v zip215=%v", name, gd, gz),
 						fmt.Sprintf("%s (%s): default mode returned %v (want false), ZIP-215 returned %v (want true)", name, tr.name, gd, gz), d)
 				}
-				for _, sh := range []batchShape{{0, 4}, {3, 4}, {63, 65}, {64, 65}} {
+				for _, sh := range []batchShape{{0, 4}, {3, 4}, {63, 65}, {64, 65}, {67, 68}, {64, 132}, {130, 132}} {
 					_, valid, err, bpv := implBatch(batchWith(t, sh.pos, sh.n, vs), vs, false, rt.NewRng(c.Seed, "c09b"))
 					c.Step(1)
 					bad := bpv != nil || err != nil || len(valid) != sh.n
